@@ -382,6 +382,10 @@ pub const TEMPLATES: &[&str] = &[
     // seeded change C03-9: a threshold whose signature-free child costs more than a signature while
     // k+1 signatures are available (the non-malleable choice must not depend on weight alone)
     "thresh(2,pk(@0),s:pk(@1),s:pk(@2),al:and_v(v:sha256(#s0),and_v(v:sha256(#s1),tv:sha256(#s2))))",
+    // extension round 2 (C07Desc, `C07_sh_scriptsig_rule_not_implied`): a P2SH redeem script under 520 bytes
+    // whose satisfaction items stay under 1650 bytes while the scriptSig INCLUDING the push of the redeem
+    // script exceeds Core's 1650-byte standardness rule (keys 6, 7 are uncompressed: Legacy / Bare only)
+    "and_v(v:pkh(@0),and_v(v:pkh(@1),and_v(v:pkh(@2),and_v(v:pkh(@3),and_v(v:pkh(@4),and_v(v:pkh(@5),and_v(v:pkh(@6),and_v(v:pkh(@7),and_v(v:ripemd160(#r0),and_v(v:ripemd160(#r1),and_v(v:ripemd160(#r2),and_v(v:ripemd160(#r3),and_v(v:hash160(#k0),and_v(v:hash160(#k1),and_v(v:hash160(#k2),and_v(v:hash160(#k3),and_v(v:sha256(#s0),sha256(#s1))))))))))))))))))",
 ];
 
 fn mk_tmpl<Ctx: ScriptContext>(w: &World, t: usize, tap: bool, sane: bool) -> Option<Miniscript<Key, Ctx>> {
@@ -390,7 +394,10 @@ fn mk_tmpl<Ctx: ScriptContext>(w: &World, t: usize, tap: bool, sane: bool) -> Op
     if tap {
         s = s.replace("multi(", "multi_a(");
     }
-    for i in 0..6 {
+    if tap && (s.contains("@6") || s.contains("@7")) {
+        return None;
+    }
+    for i in 0..N_KEYS {
         s = s.replace(&format!("@{}", i), &w.key(i, tap).to_string());
     }
     for j in 0..N_PRE {
